@@ -7,7 +7,7 @@ from .. import boot  # noqa: F401
 from .. import world as W
 from ..corpus import Session, corpus, corpus_tree, corpus_users
 from ..drive import Drive
-from ..runner import sig_of
+from ..runner import sig_of, rearm
 import aioftp
 import aioftp.common
 
@@ -232,6 +232,7 @@ async def execute(net, hyg, plan):
 
 
 def run_plan(plan):
+    rearm()
     async def main(net, hyg):
         return await execute(net, hyg, plan)
     res, info = W.run(main, seed=plan.get("seed", 0), net_kwargs=dict(mss=1460, latency=LAT))
